@@ -44,6 +44,19 @@ RustLeaves == {p[2] : p \in LeafTable} \cup UnregisteredRust
 ScriptOnlyRoto == {"Rec"}
 RotoLeaves == {p[1] : p \in LeafTable} \cup ScriptOnlyRoto
 
+(* Script-declared NAMESAKES.  A script may declare its own record or enum  *)
+(* whose identifier is that of a built-in (or registered) leaf type: in its *)
+(* root module (`record Asn {..}`: the type pkg.Asn, which shadows the      *)
+(* global Asn in that module) or in a sub-module (pkg.ns.Asn, written       *)
+(* `ns.Asn`).  Such a type is a script type like Rec: it is a different     *)
+(* type from the global leaf of the same identifier and NO Rust type maps   *)
+(* to it - in particular not the Rust leaf of that name, and not Val<T> of  *)
+(* a registered type registered under that name.                            *)
+NamesakeBases == {p[1] : p \in LeafTable} \ {"()"}     \* every leaf that is an identifier
+NsRoot(l) == "pkg." \o l
+NsSub(l)  == "pkg.ns." \o l
+NamesakeLeaves == {NsRoot(l) : l \in NamesakeBases} \cup {NsSub(l) : l \in NamesakeBases}
+
 UnaryCtors  == {"Option", "List"}
 BinaryCtors == {"Result", "Verdict"}     \* same constructor names on both sides
 
@@ -69,12 +82,17 @@ Maps(t) ==
   ELSE IF Len(t) = 2 THEN <<t[1], Maps(t[2])>>
   ELSE <<t[1], Maps(t[2]), Maps(t[3])>>
 
+(* Compatible(rust, roto): the Rust term is the one the mapping assigns.    *)
+(* Script types (Rec, namesakes) are compatible with no Rust term at all.   *)
+Compatible(rust, roto) == Maps(rust) = roto
+ASSUME \A l \in RustLeaves : LeafMap[l] \notin ScriptOnlyRoto \cup NamesakeLeaves
+
 Sig(ps, r) == [params |-> ps, ret |-> r]
 
 (* the gate proper: arity, every parameter, the return value *)
 ArityOk(roto, rust)  == Len(roto.params) = Len(rust.params)
-ParamOk(roto, rust, i) == Maps(rust.params[i]) = roto.params[i]
-RetOk(roto, rust)    == Maps(rust.ret) = roto.ret
+ParamOk(roto, rust, i) == Compatible(rust.params[i], roto.params[i])
+RetOk(roto, rust)    == Compatible(rust.ret, roto.ret)
 Gate(roto, rust) ==
   /\ ArityOk(roto, rust)
   /\ \A i \in 1..Len(rust.params) : ParamOk(roto, rust, i)
